@@ -10,6 +10,9 @@ A `clone` keeps the parent alive beside the copy (up to 4 live agents; `switch k
 parent and copies decide alternately, each with its own recomputed features, its own Gram matrix in the
 oracle and its own slot in the model (`bandit fork` copies history and matrix by value, `bandit sel i`).
 After EVERY op the checks below run for EVERY live agent, not only for the one that acted.
+Gradients that learn()/get_action leave in .grad are never cleared by the harness; a fixed set of crafted
+histories (and half of the generated learn steps) follow `learn` directly by a decision that a mask forces
+onto one given arm, arm 0 first, for both algorithms.
 Before every `get_action` the harness recomputes the gradient feature of every arm exactly as the code
 does (autograd on the same network, w.r.t. the parameters of the *current* output layer, divided by
 sqrt(out_features)), sends the chosen one as exact dyadics to `Model/Bandit.lean` and compares after
@@ -275,8 +278,7 @@ def run_impl(case, fault=None) -> Trace:
                     raised = None
                 except Exception as e:        # noqa: BLE001 - the model decides whether raising is right
                     a, raised = 0, f"{type(e).__name__}: {e}"
-                for p in agent.actor.parameters():
-                    p.grad = None
+                # NOTE: whatever get_action leaves in .grad stays there, as in train_bandits
                 g64 = g.double().numpy()
                 if raised is None and g64.shape[1] == S_before.shape[0]:
                     # exploration bonus of every arm (matrix used by this decision)
@@ -308,8 +310,10 @@ def run_impl(case, fault=None) -> Trace:
                 after(where)
             elif op[0] == "learn":
                 agents.learn_once(agent, algo, "vector", seed=op[1])
-                for p in agent.actor.parameters():
-                    p.grad = None
+                # NOTE: learn() leaves the loss gradients in .grad (as in train_bandits); the next decision
+                # must not let them into its gradient features, so they are NOT cleared here
+                if any(p.grad is not None and bool(p.grad.abs().sum() > 0) for p in live_layer(agent).parameters()):
+                    tr.tags.append("learn-left-grads")
                 tr.add("bandit learn", ("eq", "ok", where))
                 tr.tags.append("learn")
                 after(where)
@@ -499,6 +503,10 @@ def gen_case(rng: random.Random, tier: str, grow: bool = False):
             acts += 1
         elif r < p_learn:
             ops.append(["learn", rng.randrange(1 << 30)])
+            if rng.random() < 0.5 and acts < 30:      # the decision right after a learn step, forced onto one arm
+                k = 0 if rng.random() < 0.5 else rng.randrange(case["arms"])
+                ops.append(["act", rng.randrange(1 << 30), [1 if j == k else 0 for j in range(case["arms"])]])
+                acts += 1
         elif r < p_mut:
             kind = "arch" if (grow or rng.random() < 0.45) else rng.choice(MUT_KINDS)
             ops.append(["mutate", kind, rng.randrange(1 << 30)])
@@ -521,6 +529,29 @@ def gen_case(rng: random.Random, tier: str, grow: bool = False):
         ops = ops[:10] + [["act", rng.randrange(1 << 30), None]]
     case["ops"] = ops
     return case
+
+
+def crafted_cases():
+    """fixed part of every run: each learn step is directly followed by a decision that a mask forces
+    onto one given arm (every arm in turn, arm 0 first) - the gradients learn() leaves in .grad must not
+    enter the feature of any arm; then the same with a clone deciding beside its parent"""
+    out = []
+    for algo in ("NeuralUCB", "NeuralTS"):
+        for variant, (lamb, gamma, arms, kind) in enumerate([(0.5, 1.0, 3, "dense"), (2.0, 0.5, 4, "block")]):
+            ops = [["act", 11, None]]
+            s = 100 * variant
+            for rnd in range(2):
+                for k in range(arms):
+                    s += 1
+                    mask = [1 if j == k else 0 for j in range(arms)]
+                    ops += [["learn", 1000 + s], ["act", 2000 + s, mask]]
+            ops += [["learn", 3000], ["act", 3001, None], ["clone"], ["learn", 3002],
+                    ["act", 3003, [1] + [0] * (arms - 1)], ["switch", 0], ["learn", 3004],
+                    ["act", 3005, [1] + [0] * (arms - 1)]]
+            out.append({"algo": algo, "lamb": lamb, "gamma": gamma, "ctx_dim": 3, "arms": arms, "ctx_kind": kind,
+                        "head": [6], "layer_norm": variant == 0, "activation": "ReLU", "seed": 700 + variant,
+                        "ops": ops})
+    return out
 
 
 def key_of(case):
@@ -601,6 +632,8 @@ def run(chk: Check) -> None:
     for f in sorted((ROOT / "corpus" / "C19").glob("*.json")):
         c = json.loads(f.read_text())
         cases.append((c.get("replay", c), f.name))
+    for c in crafted_cases():
+        cases.append((c, "crafted: learn directly followed by a mask-forced decision"))
     for i in range(n_cases):
         cases.append((gen_case(rng, chk.tier), None))
     for i in range(n_grow):
